@@ -897,6 +897,49 @@ theorem nnx_add_remove_inverse (sharding : Option Names) (k : Int) (nm : Name)
     obtain ⟨h1, h2⟩ := h ns rfl
     simp [nnxAddAxis, nnxRemoveAxis, add_remove_inverse ns k nm h1 h2, Except.map]
 
+/-! ## the bridge box `NNXMeta` (an NNX Variable inside Linen transforms; finding F17) -/
+
+/-- **The `NNXMeta` box obeys the same alignment law as `Partitioned`**: for every sharding tuple with
+one entry per dimension and every axis the array side accepts, the partition name lands on the new
+dimension and every other entry keeps labelling its own dimension. -/
+theorem nnxmeta_aligned_after_stack {δ : Type} (ns : Names) (dims : List δ) (k : Int) (nm : Name) (d : δ)
+    (hal : ns.length = dims.length)
+    (hk1 : -((dims.length : Int) + 1) ≤ k) (hk2 : k ≤ dims.length) :
+    ∃ j ns', nnxMetaAddAxis k (some nm) (some ns) = .ok (some ns') ∧
+      stackAt k d dims = some (insertAt dims j d) ∧
+      ns'.length = (insertAt dims j d).length ∧
+      ns'.zip (insertAt dims j d) = insertAt (ns.zip dims) j (nm, d) ∧
+      ns'[j]? = some nm ∧ (insertAt dims j d)[j]? = some d := by
+  obtain ⟨j, _, hs, _, hl, hz, hn, hd⟩ := aligned_after_stack ns dims k nm d hal hk1 hk2
+  exact ⟨j, addAxis k nm ns, rfl, hs, hl, hz, hn, hd⟩
+
+/-- add and remove are inverse on the bridge box for every accepted index; a box without a
+`sharding` entry passes through both untouched (even without a partition name); an annotated box
+without a partition name is rejected -/
+theorem nnxmeta_add_remove_inverse (sharding : Option Names) (k : Int) (nm : Name)
+    (h : ∀ ns, sharding = some ns → -((ns.length : Int) + 1) ≤ k ∧ k ≤ ns.length) :
+    (nnxMetaAddAxis k (some nm) sharding).bind (nnxMetaRemoveAxis k (some nm)) = .ok sharding ∧
+    (∀ p, nnxMetaAddAxis k p none = .ok none ∧ nnxMetaRemoveAxis k p none = .ok none) ∧
+    (∀ ns, nnxMetaAddAxis k none (some ns) = .error .unspecified ∧
+           nnxMetaRemoveAxis k none (some ns) = .error .unspecified) := by
+  refine ⟨?_, fun p => ⟨rfl, rfl⟩, fun ns => ⟨rfl, rfl⟩⟩
+  cases sharding with
+  | none => rfl
+  | some ns =>
+    obtain ⟨h1, h2⟩ := h ns rfl
+    simp [nnxMetaAddAxis, nnxMetaRemoveAxis, Except.bind, add_remove_inverse ns k nm h1 h2, Except.map]
+
+/-- the shipped no-op: stacking a (3, 3) kernel on axis 0 left the sharding at two entries for a
+rank-3 value, so `'in'` labelled the stacked axis -/
+theorem orig_nnxmeta_noop_misaligned :
+    nnxMetaAddAxisOrig 0 (some (some "layers")) (some [some "in", some "out"]) = .ok (some [some "in", some "out"]) ∧
+    stackAt 0 4 [3, 3] = some [4, 3, 3] ∧
+    nnxMetaAddAxis 0 (some (some "layers")) (some [some "in", some "out"])
+      = .ok (some [some "layers", some "in", some "out"]) := by decide
+
+example : nnxMetaRemoveAxis (-1) (some (some "L")) (some [some "in", some "out", some "L"])
+    = .ok (some [some "in", some "out"]) := by decide
+
 /-! ## logical axis rules → mesh axes -/
 
 private theorem stepRule_length (names : Names) (res : List Slot) (r : Rule) :
